@@ -112,9 +112,10 @@ def read_only(text: str):
     sys.argv = ['', inp, os.path.join(d, f'ro{n}.out')]
     try:
         os.chdir(os.path.dirname(os.path.abspath(M.__file__)))
-        with worker.quiet():
+        with worker.quiet() as cap:
             model = M.Model(enable_geophires_logging_config=False)
             model.read_parameters()
+        model._gxv_stdout = cap.getvalue()
         return model, None
     except BaseException as e:
         if isinstance(e, (KeyboardInterrupt, MemoryError)):
